@@ -4,6 +4,7 @@ import XmppModel.Lemmas.StylingScanner
 import XmppModel.Lemmas.StylingStyle
 import XmppModel.Lemmas.StylingChunk
 import XmppModel.Lemmas.StylingRun
+import XmppModel.Lemmas.StylingSession
 import XmppModel.Generated.C17
 /-!
 # C17 — the styling decoder is lossless, chunk-independent and well-bracketed
@@ -20,8 +21,15 @@ theorem C17_gen_space_runes : Generated.C17.spaceEncs = some spaceEncs := by dec
 /-- the exported style constants have the model's bit values -/
 theorem C17_gen_style_consts : Generated.C17.styleConsts = some styleConsts := by decide
 
-/-- the code fence literal -/
-theorem C17_gen_fence : Generated.C17.fence = some fence := by decide
+/-- the lines of one repeated byte that open a pre block according to the model's `fence`:
+every `(b, n)`, `n ≤ 5`, such that `n × b` starts with the fence -/
+def fenceTable : List (Nat × Nat) :=
+  (List.range 256).flatMap fun b =>
+    ((List.range 6).filter fun n => fence.isPrefixOf (List.replicate n (UInt8.ofNat b))).map (b, ·)
+
+/-- the code fence, as behaviour: the real decoder opens a pre block on a line of `n × b`
+(all 256 bytes, `n = 1..5`, probed on every run) exactly where the model's `fence` does -/
+theorem C17_gen_fence : Generated.C17.fenceProbe = some fenceTable := by decide
 
 /-- the token size limit `NewDecoder` passes to `bufio.Scanner.Buffer`, read from the source
 (constant-evaluated; the default 64 KiB when `Buffer` is not called), is the model's: none.
@@ -437,5 +445,101 @@ theorem C17_no_directive_in_pre_run (sch : Schedule) (doc : Bytes) :
 example : ((scanDoc none ⟨[], true⟩ [tick, tick, tick, nl, star, 0x61, star, nl]).1.map
     (fun x => (x.1.length, decide (x.2.lv.mask.getLsbD 0 = true ∧ x.2.lv.clearMask.getLsbD 0 = false),
       x.2.openSpans))) = [(4, true, []), (4, true, [])] := by decide
+
+/-! ### Sessions: the `Decoder` API as a caller drives it (round C)
+
+Several decoders alive at the same time and used alternately from one goroutine, `Next`
+called again after it returned false, `SkipSpan`/`SkipBlock` mixed with `Next`
+(Model/StylingSession.lean).  "For every input" means that what a decoder hands out is a
+function of its own input and of the calls made on it. -/
+
+/-- the derived directive masks tested by `SkipSpan`/`SkipBlock` are those of the source -/
+theorem C17_gen_directive_masks : Generated.C17.directiveMasks = some directiveMasks := by decide
+
+/-- the decoder's code uses no package level variable that is written, aliased or has
+methods called on it anywhere in package styling: decoders share no state, as in the model -/
+theorem C17_gen_no_shared_state : Generated.C17.sharedState = some sharedState := by decide
+
+/-- `NewDecoder(r)` where `r` delivers `doc` according to `sch` -/
+def newDecoder (sch : Schedule) (doc : Bytes) : Option Api := Api.ofDecode (decode none sch doc)
+
+/-- **independence**: in a session of any number of decoders and any interleaving of
+operations, decoder `i` observes exactly what it observes when the operations issued on it
+are issued on it alone. -/
+theorem C17_session_independent (st : List Api) (ops : List (Nat × Op)) (i : Nat) (a : Api)
+    (h : st[i]? = some a) : obsOf i (runOps st ops) = solo a (opsOf i ops) :=
+  runOps_project ops st i a h
+
+/-- non-vacuity: two decoders used alternately, the first one asked again after its end -/
+example :
+    let a : Api := { rest := [⟨[0x61], 0, 0, none⟩], fin := .eof }
+    let b : Api := { rest := [⟨[gt, 0x20], BlockQuote ||| BlockQuoteStart, 1, none⟩, ⟨[0x62], BlockQuote, 1, none⟩], fin := .eof }
+    let ops := [(0, Op.create), (1, .create), (1, .next), (0, .next), (0, .next), (1, .next), (0, .skipBlock), (1, .next)]
+    obsOf 1 (runOps [a, b] ops) =
+      [.created, .tok ⟨[gt, 0x20], BlockQuote ||| BlockQuoteStart, 1, none⟩, .tok ⟨[0x62], BlockQuote, 1, none⟩,
+       .nextEnd .eof BlockQuote 1] ∧
+    obsOf 0 (runOps [a, b] ops) =
+      [.created, .tok ⟨[0x61], 0, 0, none⟩, .nextEnd .eof 0 0, .skip true false (some .eof) 0 0] := by decide
+
+/-- every decoder of a session is determined by its document alone: whatever the schedule,
+`NewDecoder` gives the decoder of the single-read delivery; it ends with EOF and the data of
+the events it will hand out concatenates to the document -/
+theorem C17_session_decoder (sch : Schedule) (doc : Bytes) :
+    ∃ a, newDecoder sch doc = some a ∧ newDecoder ⟨[], true⟩ doc = some a ∧
+      a.fin = .eof ∧ (a.rest.map (·.data)).flatten = doc ∧ a.created = false ∧ a.ended = false := by
+  obtain ⟨heof, evs, hevs, hcat⟩ := C17_decoder_lossless sch doc
+  have hci := C17_chunk_independent_events sch doc
+  refine ⟨{ rest := evs, fin := .eof }, ?_, ?_, rfl, hcat, rfl, rfl⟩
+  · simp [newDecoder, Api.ofDecode, hevs, heof]
+  · rw [newDecoder, ← hci]; simp [Api.ofDecode, hevs, heof]
+
+/-- **chunk independence of sessions**: the observations of a whole session (any decoders,
+any operations incl. `SkipSpan`/`SkipBlock` and calls after the end) do not depend on how
+the documents are delivered -/
+theorem C17_session_chunk_independent (decs : List (Schedule × Bytes)) :
+    decs.map (fun d => newDecoder d.1 d.2) = decs.map (fun d => newDecoder ⟨[], true⟩ d.2) := by
+  apply List.map_congr_left
+  intro d _
+  obtain ⟨a, h1, h2, _⟩ := C17_session_decoder d.1 d.2
+  rw [h1, h2]
+
+/-- **lossless through the API**: `NewDecoder` then `Next` until it fails hands out events
+whose data concatenates to the document, under every schedule -/
+theorem C17_session_lossless (sch : Schedule) (doc : Bytes) :
+    ∃ a, newDecoder sch doc = some a ∧
+      ∃ evs : List Event, solo { a with created := true } (List.replicate a.rest.length .next) = evs.map .tok ∧
+        (evs.map (·.data)).flatten = doc := by
+  obtain ⟨a, h1, _, _, hcat, _⟩ := C17_session_decoder sch doc
+  exact ⟨a, h1, a.rest, solo_nexts a.rest _ rfl rfl, hcat⟩
+
+/-- `SkipSpan`/`SkipBlock` terminate (the model's fuel never runs out), every operation
+consumes a prefix of the events that are left -/
+theorem C17_skip_terminates (a : Api) (block : Bool) :
+    (a.skip block).1 ≠ .fuel ∧ ∀ op, ∃ pre, a.rest = pre ++ (a.step op).2.rest :=
+  ⟨Api.skip_ne_fuel a block, Api.step_suffix a⟩
+
+/-- a skip consumes at least one event when there is one, returns false only at the end of
+the input with everything consumed, and true otherwise -/
+theorem C17_skip_progress (block : Bool) (st : Style) (q : Nat) (rest : List Event) :
+    ∃ r, skipLoop block (rest.length + 1) st q rest = some r ∧
+      (∃ pre, rest = pre ++ r.rest ∧ (rest ≠ [] → pre ≠ [])) ∧
+      (r.ret = false → r.hitEnd = true ∧ r.rest = []) ∧ (r.hitEnd = true → r.ret = false) :=
+  skipLoop_spec block _ st q rest (Nat.lt_succ_self _)
+
+/-- non-vacuity: `SkipBlock` at the start of "> a\nb\nc" skips the quote and the line after it
+(the end of the plain block) and stops in front of `c` -/
+example : ((newDecoder ⟨[], true⟩ [gt, 0x20, 0x61, nl, 0x62, nl, 0x63]).map
+    fun a => (solo { a with created := true } [.skipBlock, .next]).map
+      fun o => match o with | .skip _ r _ _ _ => (r, []) | .tok e => (true, e.data) | _ => (false, [])) =
+    some [(true, []), (true, [0x63])] := by decide
+
+/-- **calls after the end**: once a decoder has handed out everything, every further `Next`,
+`SkipSpan`, `SkipBlock` reports the end again (`Err()` the end status, `Style()`/`Quote()`
+unchanged) and nothing else changes -/
+theorem C17_after_end (a : Api) (op : Op) (hc : a.created = true) (hop : op ≠ .create) (hr : a.rest = []) :
+    (a.step op).2 = { a with ended := true } ∧
+    ((a.step op).1 = .nextEnd a.fin a.style a.quote ∨
+      ∃ blk, (a.step op).1 = .skip blk false (some a.fin) a.style a.quote) :=
+  Api.step_at_end a op hc hop hr
 
 end XmppModel.Props.C17
